@@ -36,7 +36,8 @@ META = {
                    "results as affine forms of the table size, monotonicity of index -> time, a sentinel rule for the "
                    "interval scan, and the pair comparison of C13 restricted to the conversion functions."
                    " Also: every dateToIdx result decided on the computed index, floor (not truncation) in all conversions, reset of the run on every non-matching path, and a non-empty clipped run at every reported interval."
-                   " Round 3: conversions are not answered from memos that a change of start or resolution does not empty (invalidation rule).",
+                   " Round 3: conversions are not answered from memos that a change of start or resolution does not empty (invalidation rule)."
+                   " Round 4: the minimum duration decides about runs, never about the window.",
     "assumptions": ["resolution > 0"],
     "trusted_base": ["Cython 3.3.0 front end (pair comparison)"],
 }
